@@ -55,6 +55,9 @@ SUB = ("c14_twice", "int32_t", ["int32_t x"], "{ int32_t t = x; t++; return t + 
 SUBCALL = "{ RdV = c14_twice(RsV) + c14_twice(RtV); }"
 
 
+NOPED_NAMES = ["Y4_l2fetch", "Y5_l2fetch", "R6_release_at_vi"]
+
+
 def alphabet(tier):
     evs = []
     names = list(BEHAVIOURS)
@@ -66,6 +69,10 @@ def alphabet(tier):
         evs.append(hist.Event("insn", "A", "V14_" + n.replace("-", "_"), [BEHAVIOURS[n]]))
     for inst in ("A", "B"):
         evs.append(hist.Event("subcall", inst, "V14_subcall", [SUBCALL], sub=SUB))
+    # instructions of the bundled no-op list: always `return NOP();`, whatever was compiled before
+    for inst in ("A", "B"):
+        for nm in NOPED_NAMES:
+            evs.append(hist.Event("transform", inst, nm, ["{ RdV = mem_load_u8(RsV); P0 = 1; }"]))
     # one instruction name (and the names the extension folds onto it) used with different behaviours
     for inst in ("A", "B"):
         for i, (nm, beh) in enumerate([("V14_shared", "plain"), ("V14_shared", "new-load-jump"), ("dep_V14_shared", "pred-explicit"), ("V14_shared_undocumented", "tmp-call"), ("IMPORTED_V14_shared", "late-unsupported")]):
